@@ -17,7 +17,8 @@ taken modulo the pool, a reference to something that does not exist is dropped):
   GreedyRewritePatternApplier (dead-code elimination on), as ApplyPDLPass does.
 
 Signatures: {"check": "one_path_raises", path, stage, exc, where (innermost xdsl frame), msg} and
-{"check": "payload_differs", match_features, rewrite_features, payload_features, recursive, greedy,
+{"check": "payload_differs", pattern_features (= match + rewrite features), match_features,
+ rewrite_features, payload_features, recursive, greedy,
  "m:<f>"/"r:<f>"/"p:<f>": "1" per feature} where the features are those of the case after an internal
 delta-debugging pass that keeps the sub-oracle fixed (run_one), i.e. of the shrunk pattern.
 
@@ -269,7 +270,9 @@ def pattern_text(pat):
     decreasing = True
     gone = set()
 
-    def val_ref(v):
+    def val_ref(v, replacing=None):
+        """SSA name for a value reference of the rewrite, None if there is no such value or using it
+        would make the rewrite illegal (a result of an op that is already gone or being replaced)."""
         if v[0] == 0:
             if not all_operands:
                 return None
@@ -277,7 +280,7 @@ def pattern_text(pat):
             return all_operands[_mod(v[1], len(all_operands))]
         if v[0] == 1:
             k = targets[_mod(v[1], len(targets))]
-            if not ops[k]["nres"]:
+            if not ops[k]["nres"] or k in gone or k == replacing:
                 return None
             idx = _mod(v[2], ops[k]["nres"])
             if v[3]:
@@ -304,11 +307,16 @@ def pattern_text(pat):
             return ssa
         raise RecipeInvalid("bad value reference")
 
-    def new_op(spec):
+    def new_op(spec, nres=None):
+        """Create an op; nres = number of results it must declare (None: as the recipe says; an empty
+        result list always stays empty: no results / types inferred from the replaced op)."""
         nonlocal decreasing
         decreasing = False
         name = NAMES[_mod(spec["n"], len(NAMES))]
         arg_ssas = [s for s in (val_ref(v) for v in spec["a"]) if s is not None]
+        res_spec = list(spec["r"])
+        if nres is not None and res_spec:
+            res_spec = (res_spec + [res_spec[-1]] * nres)[:nres]
         at, seen = [], set()
         for nm, ref in spec["at"]:
             nm = ANAMES[_mod(nm, len(ANAMES))]
@@ -333,7 +341,7 @@ def pattern_text(pat):
                 rf.add("new_attr_const")
             seen.add(nm)
         res = []
-        for ref in spec["r"]:
+        for ref in res_spec:
             if ref[0] == 0 and all_types:
                 res.append(all_types[_mod(ref[1], len(all_types))])
                 rf.add("reuse_matched_type")
@@ -354,7 +362,17 @@ def pattern_text(pat):
         created.append((ssa, len(res)))
         return ssa
 
-    for act in pat["rw"]:
+    def phase(act):
+        """Legal order of the rewrite: ops are created while the root still marks the insertion
+        point; nested matched ops are erased / replaced by values once their user is gone."""
+        kind = _mod(act[0], 4)
+        if kind == 3:
+            return 0
+        if targets[_mod(act[1], len(targets))] == root:
+            return 2
+        return 1 if kind == 2 else 3
+
+    for act in sorted(pat["rw"], key=phase):
         kind = _mod(act[0], 4)
         k = targets[_mod(act[1], len(targets))]
         if kind != 3 and k in gone:
@@ -366,7 +384,10 @@ def pattern_text(pat):
             rf.add("erase")
             gone.add(k)
         elif kind == 1:
-            vals = [s for s in (val_ref(v) for v in act[2]) if s is not None]
+            # a legal replacement: as many values as the op has results, none of them its own
+            vals = [s for s in (val_ref(v, replacing=k) for v in act[2]) if s is not None]
+            if vals:
+                vals = (vals + [vals[-1]] * ops[k]["nres"])[:ops[k]["nres"]]
             if vals:
                 # the trailing attr-dict keeps the parser from reading the next line's result
                 # name as the optional replacement operation
@@ -378,7 +399,7 @@ def pattern_text(pat):
                 rf.add("erase")
             gone.add(k)
         elif kind == 2:
-            ssa = new_op(act[2])
+            ssa = new_op(act[2], ops[k]["nres"])
             rw_lines.append(f"pdl.replace %op{k} with {ssa}")
             rf.add("replace_with_new_op")
             gone.add(k)
@@ -590,6 +611,14 @@ def show(module):
     return out.getvalue()
 
 
+def _strip_ext(t):
+    if isinstance(t, tuple):
+        if len(t) == 2 and t[0] in ("ext", "extb") and isinstance(t[1], int):
+            return (t[0],)
+        return tuple(_strip_ext(x) for x in t)
+    return t
+
+
 def evaluate(pat_text, pay_text, recursive, greedy=False):
     """Returns (outcome, info): outcome in same|differs|one_raises|both_raise|timeout."""
     from vt.canon import canon, first_diff
@@ -610,7 +639,10 @@ def evaluate(pat_text, pay_text, recursive, greedy=False):
         rb = guarded(apply_compiled, ctx, pat_b, pb, recursive, greedy)
     if ra[0] == "timeout" or rb[0] == "timeout":
         return "timeout", {"a": ra[0], "b": rb[0]}
-    ca, cb = canon(pa), canon(pb)
+    # a value that is no longer defined inside the module (both rewrites left the same dangling
+    # operand) is ("ext", id) in canon; ids of two clones never agree, compare those by position only
+    ca, cb = _strip_ext(canon(pa)), _strip_ext(canon(pb))
+    before = _strip_ext(before)
     changed = (ra[0] == "ok" and ca != before) or (rb[0] == "ok" and cb != before)
     if ra[0] == "raise" and rb[0] == "raise":
         return "both_raise", {"a": ra[1], "b": rb[1], "stage": stage}
@@ -935,7 +967,8 @@ def patterns(draw):
                 args.append([1, k - 1 if draw(st.booleans()) else pick(k), pick(2), pick(4) == 0 and 1 or 0])
             else:
                 args.append([0, draw(st.sampled_from([0, 0, 1, 1, 2, 3]))])
-        nres = draw(st.sampled_from([0, 1, 1, 2, 2])) if name in (0, 4) else draw(st.sampled_from([1, 1, 1, 1, 0, 2]))
+        nres = draw(st.sampled_from([0, 1, 1, 1, 1, 2, 2, 2])) if name in (0, 4) \
+            else draw(st.sampled_from([1, 1, 1, 1, 1, 1, 0, 2]))
         if k < nops - 1 and nres == 0:
             nres = 1 + pick(2)
         res = [draw(st.sampled_from([0, 0, 1, 1, 2, 3])) for _ in range(nres)]
@@ -947,14 +980,20 @@ def patterns(draw):
         ops.append({"n": name, "a": args, "at": at, "r": res})
     root_nres = len(ops[-1]["r"])
 
-    def valref():
+    ncreated = [0]
+
+    def valref(avoid=None):
         c = draw(st.sampled_from([0, 0, 0, 1, 1, 1, 2, 2]))
-        if c == 0:
-            return [0, pick(4)]
+        if c == 2 and not ncreated[0]:
+            c = draw(st.sampled_from([0, 1]))
         if c == 1:
             # targets are numbered root first: prefer a nested matched op when there is one
             k = 1 + pick(nops - 1) if nops > 1 and draw(st.booleans()) else pick(nops)
-            return [1, k, pick(2), pick(2)]
+            if k != avoid:          # (the results of the op being replaced cannot replace it)
+                return [1, k, pick(2), pick(2)]
+            c = 0
+        if c == 0:
+            return [0, pick(4)]
         return [2, pick(2), pick(2)]
 
     def newop(nres):
@@ -971,17 +1010,16 @@ def patterns(draw):
     rw = []
     for _ in range(draw(st.sampled_from([0, 0, 0, 1, 1, 2]))):
         rw.append([3, 0, newop(draw(st.sampled_from([0, 1, 1, 2, 2])))])   # created before the root goes away
+        ncreated[0] += 1
     nact = draw(st.sampled_from([1, 1, 1, 2]))
     for i in range(nact):
-        kind = draw(st.sampled_from([0, 1, 1, 2, 2, 2]))
+        kind = draw(st.sampled_from([0, 1, 1, 1, 2, 2, 2, 2]))
         t = 0 if (i == 0 or draw(st.booleans())) else pick(nops)
         tn = root_nres if t == 0 else len(ops[max(0, nops - 1 - t)]["r"])
-        if draw(st.integers(0, 9)) == 0:
-            tn = pick(3)                      # sometimes a wrong replacement arity
         if kind == 0:
             rw.append([0, t])
         elif kind == 1:
-            rw.append([1, t, [valref() for _ in range(tn)]])
+            rw.append([1, t, [valref(avoid=t) for _ in range(tn)]])
         else:
             rw.append([2, t, newop(tn)])
     return {"types": types, "attrs": attrs, "operands": operands, "ops": ops, "rw": rw}
@@ -1043,7 +1081,8 @@ def classify(recipe):
     outcome, info = evaluate(ptxt, paytxt, recursive, greedy)
     sig, detail = None, ""
     if outcome == "differs":
-        sig = {"check": "payload_differs", "match_features": ",".join(mf),
+        sig = {"check": "payload_differs", "pattern_features": ",".join(mf + rf),
+               "match_features": ",".join(mf),
                "rewrite_features": ",".join(rf), "payload_features": ",".join(pf),
                "recursive": recursive, "greedy": greedy}
         # one marker key per feature of the (minimised) case, so that a known finding can name the
@@ -1072,7 +1111,8 @@ def _same_class(sig):
     pattern features are free to become fewer."""
     def fixed(sg):
         return {k: v for k, v in sg.items()
-                if k not in ("match_features", "rewrite_features", "payload_features") and k[1:2] != ":"}
+                if k not in ("pattern_features", "match_features", "rewrite_features", "payload_features")
+                and k[1:2] != ":"}
     keep = fixed(sig)
 
     def pred(r):
@@ -1084,6 +1124,8 @@ def _same_class(sig):
     return pred
 
 
+# create `"test.op"() {attr = "s"}` in front of every matched root and remove nothing
+MARKER_REWRITE = [[3, 0, {"n": 0, "a": [], "at": [[0, [1, 4, 0]]], "r": []}]]
 _MINIMISED: dict = {}     # digest(unminimised signature) -> (signature, detail, recipe) of its minimised form
 
 
@@ -1119,6 +1161,18 @@ def run_one(h, recipe, label):
             h.count("nt_recursive")
     if sig is None:
         return
+    if sig["check"] == "one_path_raises" and sig["exc"] == "ValueError" and sig["where"] == "ir/core.py:erase" \
+            and recipe["kind"] == "gen":
+        # "op still has uses": the rewrite is illegal for this payload op, which only shows on one path
+        # when the two matchers disagree about that op. Name the root cause: re-run the matcher with a
+        # rewrite that only marks the matched root (creates an op, removes nothing).
+        marked = dict(recipe, pattern=dict(recipe["pattern"], rw=MARKER_REWRITE))
+        s2, d2, _, _, _ = classify(marked)
+        if s2 is not None and s2["check"] == "payload_differs":
+            h.count("erase_symptom_traced_to_matcher")
+            recipe, sig = marked, s2
+            detail = ("(found as: " + detail.split("\n")[0] + ")\nthe two matchers accept different ops "
+                      "(rewrite replaced by a marker op):\n" + d2)
     if sig["check"] == "payload_differs" and not h._shrinking and recipe["kind"] != "corpus_own":
         # the signature names the features of the *minimised* pattern: minimise here, keeping the
         # sub-oracle fixed, then report the small recipe (the harness' own shrink then has nothing
